@@ -405,9 +405,15 @@ pub(super) fn derive_schema(input: TokenStream) -> syn::Result<TokenStream> {
                     }
 
                     (None, _, _) => {/* Externally tagged */
-                        quote! {
-                            ::ohkami::openapi::object()
-                                .property(#tag, #schema)
+                        if is_unit {/* written as the name: `"Name"` */
+                            quote! {
+                                ::ohkami::openapi::string().enumerates([#tag])
+                            }
+                        } else {
+                            quote! {
+                                ::ohkami::openapi::object()
+                                    .property(#tag, #schema)
+                            }
                         }
                     }
 
